@@ -136,30 +136,43 @@ def _run(ix, R):
         fl = mkflow(ix, site)
         pe = param_env(fl, f, ['T', 'Pl', 'mu'])
         N = spec(fl, 'T.shape[0]', pe)
-        allocs = {}
+        # the four work arrays are identified by the slot of the returned tuple they reach (z, H, g, deltaz),
+        # not by their names
+        r = the_return(fl)
+        ra0 = atom_of(fl, r.value)
+        every = {}
         for e in fl.of('assign'):
             at = atom_of(fl, e.value)
             if at is not None and at.head == 'alloc' and not e.loops:
-                allocs[e.name] = e.value
+                every[e.value.single_atom()] = e.value
+        allocs = {}
+        if ra0 is not None and ra0.head == 'tuple' and len(ra0.args) == 4:
+            for nm, x in zip(('z', 'H', 'g', 'deltaz'), ra0.args):
+                hit = [a for a in x.all_atoms() if a in every]
+                if len(set(hit)) == 1:
+                    allocs[nm] = every[hit[0]]
         why = []
         for nm, d in (('H', 0), ('g', 0), ('z', 1), ('deltaz', 1)):
             if nm not in allocs or affine_len(fl, allocs[nm], N, {}) != (1, d, 0):
                 why.append('%s allocated as %s' % (nm, fmt(fl, allocs.get(nm))))
         R.check('3.alloc', 'SHAPE', site, 'H, g have N entries, z and deltaz N+1 (N = number of layers = len(T))',
                 not why, key='; '.join(why), detail='; '.join(why), loc=f.loc())
+        if len(allocs) != 4:
+            raise AnalysisError('the returned tuple does not name four locally allocated arrays')
         b = dict(pe, **allocs)
         b['N'] = N
         sts = [e for e in fl.of('store')]
         lp_st = [e for e in sts if e.loops]
         lp = lp_st[0].loops[0] if lp_st else None
-        b['i'] = lp.index if lp is not None else None
-        got = {}
-        for e in sts:
-            got.setdefault(unparse(e.target_ast), []).append(e)
+        b['i'] = lp.index if lp is not None else fl.tab.name('i')
         why = []
 
+        def stores_to(tgt):
+            t = spec(fl, tgt, b)
+            return [e for e in sts if e.target is not None and fl.tab.equal(e.target, t)]
+
         def chk(tgt, want, guard=None):
-            es = got.get(tgt, [])
+            es = stores_to(tgt)
             if len(es) != 1:
                 why.append('%s assigned %d times' % (tgt, len(es)))
                 return
@@ -180,7 +193,14 @@ def _run(ix, R):
         if lp is None or not loop_matches(fl, lp, '1', 'N+1', b):
             why.append('loop %s' % (unparse(lp.iter_ast) if lp else None))
         # order inside the loop: deltaz, z, g, H
-        order = [unparse(e.target_ast) for e in lp_st]
+        order = []
+        for e in lp_st:
+            for nm in ('deltaz', 'z', 'g', 'H'):
+                if e.target is not None and fl.tab.equal(e.target, spec(fl, nm + '[i]', b)):
+                    order.append(nm + '[i]')
+                    break
+            else:
+                order.append(unparse(e.target_ast))
         if order != ['deltaz[i]', 'z[i]', 'g[i]', 'H[i]']:
             why.append('statement order %s' % order)
         R.check('2.hydro', 'ALG', site,
